@@ -101,17 +101,24 @@ Proof.
   apply run_closed. apply table_stage_ok. vm_compute. reflexivity.
 Qed.
 
-(* FAITHFUL pipeline, still refuted: a one-statement run in which a table entry of an UNHANDLED stage (the loader's CREATE TABLE:
-   Catalog Error for component / dataset names equal up to case) escapes as a non-VTL error *)
-Theorem C32_run_impl_escape_refuted :
-  exists e, exec (R_of raisable_tab) (run_prog stage_mapper_impl one_stmt 0) (Raise e) /\ is_vtl e = false.
+(* FAITHFUL pipeline, closed on the whole table: nothing known to be raisable (macro literals, every DuckDB message probed or
+   observed, in the stage it was observed in) escapes from a run() of any shape *)
+Theorem C32_run_impl_closed_on_table :
+  forall stmts final e, exec (R_of raisable_tab) (run_prog stage_mapper_impl stmts final) (Raise e) -> is_vtl e = true.
 Proof.
-  assert (H : existsb (fun x => negb (entry_ok stage_mapper_impl x)) raisable_tab = true) by (vm_compute; reflexivity).
-  apply existsb_exists in H. destruct H as [[s msg] [Hin Hbad]]. apply negb_true_iff in Hbad.
-  exact (unmapped_entry_escapes stage_mapper_impl raisable_tab s msg Hin Hbad).
+  apply run_closed. apply table_stage_ok. vm_compute. reflexivity.
 Qed.
 
-(* every table entry that still escapes sits in a stage without handler *)
+(* REGRESSION WITNESS: before the fixes a one-statement run let a table entry escape as a non-VTL error *)
+Theorem C32_run_before_fix_escape_execution_refuted :
+  exists e, exec (R_of raisable_tab) (run_prog stage_mapper_before_fix one_stmt 0) (Raise e) /\ is_vtl e = false.
+Proof.
+  assert (H : existsb (fun x => negb (entry_ok stage_mapper_before_fix x)) raisable_tab = true) by (vm_compute; reflexivity).
+  apply existsb_exists in H. destruct H as [[s msg] [Hin Hbad]]. apply negb_true_iff in Hbad.
+  exact (unmapped_entry_escapes stage_mapper_before_fix raisable_tab s msg Hin Hbad).
+Qed.
+
+(* in general: an entry can only escape from a stage without handler (macro installation, load validation queries, cleanup DROPs) *)
 Theorem C32_run_impl_escapes_only_unhandled :
   forall s msg, In (s, msg) raisable_tab -> entry_ok stage_mapper_impl (s, msg) = false -> stage_mapper_impl s = NoMap.
 Proof.
@@ -174,7 +181,8 @@ Print Assumptions C32_run_closed.
 Print Assumptions C32_handled_stage_total.
 Print Assumptions C32_run_impl_closed.
 Print Assumptions C32_run_spec_closed.
-Print Assumptions C32_run_impl_escape_refuted.
+Print Assumptions C32_run_impl_closed_on_table.
+Print Assumptions C32_run_before_fix_escape_execution_refuted.
 Print Assumptions C32_run_impl_escapes_only_unhandled.
 Print Assumptions C32_run_impl_partial.
 Print Assumptions C32_run_before_fix_escape_refuted.
